@@ -514,3 +514,147 @@ def open_module_plans(kind, path, level, mode, pos, interp_ok=True):
     canon = head + ["LOADLINK gen", "SNAP s0"] + build([]) + ["LOADLINK gen", "CALL 0 fb 3"] + calls + ["CHECKTEXT end"]
     interp = head + ["LOADLINK interp", "SNAP s0"] + build([]) + ["LOADLINK interp"] + interps + ["CHECKTEXT end"]
     return plan, canon, interp
+
+
+# ----------------------------------------------------------------------------- many small functions
+def many_module(n, seed):
+    """a module of n small functions h0..h{n-1}; every third one calls its predecessor (lazy chains)"""
+    out = ["mm:\tmodule", "p_ii:\tproto\ti64, i64:p, i64:n"] + [f"\texport\th{k}" for k in range(n)]
+    for k in range(n):
+        out += [f"h{k}:\tfunc\ti64, i64:p, i64:n", "\tlocal\ti64:s, i64:r", f"\tadd\ts, n, {k * 3 + seed % 7}"]
+        if k % 3 == 2:
+            out += [f"\tcall\tp_ii, h{k - 1}, r, p, s", "\tadd\ts, s, r"]
+        if k % 4 == 1:
+            out += ["\tmul\ts, s, 3", f"\txor\ts, s, {k}"]
+        out += [f"\tmov\ti64:{8 * (k % 8)}(p), s", "\tret\ts", "\tendfunc"]
+    out.append("\tendmodule")
+    return "\n".join(out) + "\n"
+
+
+def many_plans(n, path, level, iface, rng, calls_only=False):
+    """every function called, called again, MIR_gen'ed (again), called: addresses and results stable.
+    calls_only: no MIR_gen and no text comparison after the calls (open finding on lazy bb generation)"""
+    head = [f"OPT {level}", f"SCAN {path}"]
+    order = list(range(n))
+    if rng.chance(1, 2):
+        order.reverse()
+    acts, cacts, iacts = [], [], []
+    for k in order:
+        a = k % 5
+        acts += [f"CALL {k} h{k} {a}", f"CALL {k} h{k} {a}"]
+        cacts += [f"CALL {k} h{k} {a}"]
+        iacts += [f"INTERP {k} h{k} {a}"]
+    regen = [f"GEN h{k}" for k in order if k % 2 == 0] + [f"GEN h{k}" for k in order if k % 4 == 0]
+    acts += regen + [f"CALL {k} h{k} {k % 5}" for k in order]
+    if calls_only:
+        acts = [a for a in acts if not a.startswith("GEN")]
+    plan = head + [f"LOADLINK {iface}", "SNAP s0"] + acts + ([] if calls_only else ["CHECKTEXT end"])
+    canon = head + ["LOADLINK gen", "SNAP s0"] + cacts + ["CHECKTEXT end"]
+    interp = head + ["LOADLINK interp", "SNAP s0"] + iacts + ["CHECKTEXT end"]
+    return plan, canon, interp
+
+
+# ----------------------------------------------------------------------------- generation-order pairs
+# The generator keeps per-function working sets in its context (addr_regs, tied_regs, the scan-var map,
+# spill tables, ...).  A function A that uses such a feature is generated right before / after a plain
+# function B that uses none of them but the SAME register numbers; every function's results must be
+# those of the function generated alone in a fresh context.
+PAIR_LOCALS = "\tlocal\ti64:v0, i64:v1, i64:v2, i64:v3, i64:v4, i64:v5, i64:v6, i64:v7, d:d0, d:d1"
+
+
+def _pairfunc(name, extra_locals, body, pre=(), post=()):
+    return list(pre) + [f"{name}:\tfunc\ti64, i64:p, i64:n", PAIR_LOCALS] \
+        + (["\tlocal\t" + extra_locals] if extra_locals else []) + body + ["\tendfunc"] + list(post)
+
+
+def pair_victims():
+    """plain functions touching every register number v0..v7, d0, d1 with redefinitions and copies"""
+    vs = {}
+    b = ["\tmov\ts, 0"]
+    for k in range(7):       # the shape of the seeded-change demo on every adjacent pair of registers
+        a, c = f"v{k}", f"v{k + 1}"
+        b += [f"\tadd\t{a}, n, {k + 1}", f"\tmov\t{c}, {a}", f"\tadd\t{a}, {a}, {100 + k}", f"\tadd\t{c}, {c}, {a}",
+              f"\tadd\ts, s, {c}"]
+    b += ["\tand\ts, s, 1048575", "\tmov\ti64:(p), s", "\tret\ts"]
+    vs["copies"] = _pairfunc("B", "i64:s", b)
+    b = ["\tmov\tv0, 0", "\tmov\tv1, 0", "\tand\tv2, n, 7", "\tadd\tv2, v2, 3", "\tmov\tv7, 1",
+         "LB1:", "\tbge\tLB2, v1, v2", "\tmov\tv3, v0", "\tadd\tv0, v0, v1", "\tadd\tv4, v3, v0",
+         "\tmov\tv5, v4", "\tadd\tv4, v4, 7", "\tadd\tv6, v5, v4", "\tadd\tv7, v7, v6", "\tand\tv7, v7, 1048575",
+         "\tmov\tv0, v7", "\tadd\tv1, v1, 1", "\tjmp\tLB1", "LB2:", "\ti2d\td0, v7", "\tdmov\td1, d0",
+         "\tdadd\td0, d0, d0", "\tdadd\td1, d1, d0", "\td2i\tv3, d1", "\tadd\tv0, v0, v3",
+         "\tmov\ti64:8(p), v0", "\tret\tv0"]
+    vs["loop"] = _pairfunc("B", "", b)
+    return vs
+
+
+def pair_features():
+    """name -> (items before, function A (+helpers), names to generate in order (helpers first))"""
+    fs = {}
+
+    def A(extra, body, pre=(), post=()):
+        return _pairfunc("A", extra, ["\tadd\tv0, n, 11"] + body + ["\tand\tv0, v0, 1048575", "\tmov\ti64:16(p), v0",
+                                                                  "\tret\tv0"], pre, post)
+    for k in range(8):       # the address of the local with each register number escapes
+        fs[f"addr_v{k}"] = (["\timport\text_inc", "p_inc:\tproto\tp:q"],
+                            A("i64:q", [f"\tmov\tv{k}, v0", f"\taddr\tq, v{k}", "\tcall\tp_inc, ext_inc, q",
+                                        f"\tadd\tv0, v0, v{k}"]), ["A"])
+    fs["addr_d"] = ([], A("i64:q", ["\ti2d\td0, v0", "\taddr\tq, d0", "\tdadd\td:(q), d:(q), d:(q)", "\td2i\tv1, d0",
+                                    "\tadd\tv0, v0, v1"]), ["A"])
+    fs["addr8"] = ([], A("i64:q", ["\tmov\tv1, v0", "\taddr8\tq, v1", "\tmov\tu8:(q), 5", "\tadd\tv0, v0, v1",
+                                   "\tmov\tv2, v0", "\taddr16\tq, v2", "\tmov\tu16:(q), 9", "\tadd\tv0, v0, v2",
+                                   "\tmov\tv3, v0", "\taddr32\tq, v3", "\tmov\tu32:(q), 3", "\tadd\tv0, v0, v3"]), ["A"])
+    for h in ("r12", "rbx"):    # declared first: the tied register has the number of B's first local
+        gb = ["\tmov\tsv, g", "\tadd\tv0, n, 11", "\tmov\tg, v0", "\tadd\tv0, v0, 5", "\tmov\tv1, g",
+              "\tadd\tv0, v0, v1", "\tmov\tg, sv", "\tmov\ti64:16(p), v0", "\tret\tv0"]
+        fs[f"global_{h}"] = ([], ["A:\tfunc\ti64, i64:p, i64:n", f"\tglobal\ti64:g:{h}", PAIR_LOCALS, "\tlocal\ti64:sv"]
+                             + gb + ["\tendfunc"], ["A"])
+    fs["alloca"] = ([], A("i64:q", ["\tand\tv1, n, 7", "\tadd\tv1, v1, 2", "\tmul\tv1, v1, 16", "\talloca\tq, v1",
+                                    "\tmov\ti64:8(q), v0", "\tmov\ti64:(q), n", "\tadd\tv0, v0, i64:8(q)",
+                                    "\tadd\tv0, v0, i64:(q)"]), ["A"])
+    fs["va"] = (["p_vh:\tproto\ti64, i64:k, ...",
+                 "vh:\tfunc\ti64, i64:k, ...", "\tlocal\ti64:va, i64:a, i64:r", "\talloca\tva, 64", "\tva_start\tva",
+                 "\tva_arg\ta, va, i64:0", "\tmov\tr, i64:(a)", "\tva_arg\ta, va, i64:0", "\tadd\tr, r, i64:(a)",
+                 "\tva_end\tva", "\tadd\tr, r, k", "\tret\tr", "\tendfunc"],
+                A("", ["\tcall\tp_vh, vh, v1, 1, v0, n", "\tadd\tv0, v0, v1"]), ["vh", "A"])
+    fs["blk"] = (["p_bh:\tproto\ti64, blk:40(a)",
+                  "bh:\tfunc\ti64, blk:40(a)", "\tlocal\ti64:r", "\tmov\tr, i64:8(a)", "\tadd\tr, r, i64:32(a)",
+                  "\tret\tr", "\tendfunc"],
+                 A("i64:q", ["\talloca\tq, 40", "\tmov\ti64:8(q), v0", "\tmov\ti64:32(q), n",
+                             "\tcall\tp_bh, bh, v1, blk:40(q)", "\tadd\tv0, v0, v1"]), ["bh", "A"])
+    fs["lref_jmpi"] = ([], A("i64:t", ["\tmov\tt, tblA", "\tand\tv1, n, 1", "\tmov\tt, i64:(t, v1, 8)", "\tjmpi\tt",
+                                       "LA1:", "\tadd\tv0, v0, 100", "\tjmp\tLA3", "LA2:", "\tadd\tv0, v0, 200", "LA3:"],
+                             pre=["\tforward\ttblA"], post=["tblA:\tlref\tLA1", "\tlref\tLA2"]), ["A"])
+    fs["laddr_switch"] = ([], A("i64:t", ["\tand\tv1, n, 1", "\tbt\tLA4, v1", "\tladdr\tt, LA1", "\tjmp\tLA5", "LA4:",
+                                          "\tladdr\tt, LA2", "LA5:", "\tjmpi\tt", "LA1:", "\tadd\tv0, v0, 10",
+                                          "\tjmp\tLA3", "LA2:", "\tadd\tv0, v0, 20", "LA3:", "\tand\tv2, n, 3",
+                                          "\tbge\tLA8, v2, 3", "\tswitch\tv2, LA6, LA7, LA8", "LA6:", "\tadd\tv0, v0, 1",
+                                          "LA7:", "\tadd\tv0, v0, 2", "LA8:"]), ["A"])
+    fs["ldouble"] = ([], A("ld:l0, ld:l1", ["\ti2ld\tl0, v0", "\tldmov\tl1, l0", "\tldadd\tl0, l0, l0",
+                                             "\tldadd\tl1, l1, l0", "\tld2i\tv1, l1", "\tui2ld\tl0, v1",
+                                             "\tld2d\td0, l0", "\td2i\tv2, d0", "\tadd\tv0, v1, v2"]), ["A"])
+    sp = [f"i64:w{k}" for k in range(40)]
+    body = [f"\tadd\tw{k}, n, {k}" for k in range(40)] + ["\tcall\tp_log, ext_log, v0"] \
+        + [f"\tadd\tv0, v0, w{k}" for k in range(40)]
+    fs["spills"] = (["\timport\text_log", "p_log:\tproto\ti64:v"], A(", ".join(sp), body), ["A"])
+    return fs
+
+
+def pair_module(feature, victim):
+    pre, a, gens = pair_features()[feature]
+    b = pair_victims()[victim]
+    return "\n".join(["mp:\tmodule", "\texport\tA, B"] + pre + a + b + ["\tendmodule"]) + "\n", gens
+
+
+def pair_plans(path, level, gens):
+    """single plans (one process each): B alone, A(+helpers) alone, A..B, B..A, A B A' (B between), interp"""
+    head = [f"OPT {level}", f"SCAN {path}", "LOADLINK interp", "SNAP s0"]
+    ca = [f"CALL {i} A {n}" for i, n in enumerate((0, 1, 5, 6))]
+    cb = [f"CALL {i} B {n}" for i, n in enumerate((0, 1, 5, 6))]
+    ga = [f"GEN {g}" for g in gens]
+    return {
+        "solo_A": head + ga + ca + ["CHECKTEXT end"],
+        "solo_B": head + ["GEN B"] + cb + ["CHECKTEXT end"],
+        "A_B": head + ga + ["GEN B"] + ca + cb + ["GEN A", "GEN B"] + ca + cb + ["CHECKTEXT end"],
+        "B_A": head + ["GEN B"] + ga + cb + ca + ["GEN B", "GEN A"] + cb + ca + ["CHECKTEXT end"],
+        "interp": head + [l.replace("CALL", "INTERP") for l in ca + cb] + ["CHECKTEXT end"],
+    }
